@@ -168,8 +168,9 @@ func (dist *NormalDistribution) EllipticCdf(r Scalar, x ConstVector) error {
 /* -------------------------------------------------------------------------- */
 
 func (dist *NormalDistribution) GetParameters() Vector {
-  p := dist.Mu
-  p  = p.AppendVector(dist.Sigma.AsVector())
+  // the result must not share elements with the distribution
+  p := dist.Mu.CloneVector()
+  p  = p.AppendVector(dist.Sigma.AsVector().CloneVector())
   return p
 }
 
